@@ -272,6 +272,8 @@ impl TryFromSpecImpl<BigInt> for i64 {
 pub assume_specification [i64::abs] (a: i64) -> (r: i64)
     requires a != i64::MIN,
     ensures r as int == (if a >= 0 { a as int } else { -(a as int) });
+pub assume_specification [i64::unsigned_abs] (a: i64) -> (r: u64)
+    ensures r as int == (if a >= 0 { a as int } else { -(a as int) });
 pub assume_specification [i64::signum] (a: i64) -> (r: i64)
     ensures r as int == (if a > 0 { 1int } else if a == 0 { 0int } else { -1int });
 pub assume_specification [i64::is_positive] (a: i64) -> (r: bool) ensures r == (a > 0);
